@@ -14,6 +14,7 @@ import os
 import random
 import re
 import shutil
+import subprocess
 import tempfile
 import time
 
@@ -84,6 +85,27 @@ def validate_trace(ctx, module, cfg, trace, consts=None, timeout=900, first_line
 
 
 vlib.validate_trace = validate_trace     # judge_traces / classify look it up in vlib
+
+
+def build_harness(ctx):
+    """vlib.build_harness; if the shared harness package does not compile (another family's
+    file being edited), build a private copy holding only main.go and ref.go."""
+    try:
+        return vlib.build_harness(ctx)
+    except vlib.Machinery as e:
+        ctx.log('shared harness build failed, building main.go + ref.go only: %s' % str(e).splitlines()[2:3])
+    hd = os.path.join(ctx.work, 'harness-c17')
+    os.makedirs(hd, exist_ok=True)
+    for f in ('main.go', 'ref.go', 'go.mod', 'go.sum'):
+        shutil.copy(os.path.join(vlib.HARNESS, f), hd)
+    gm = open(os.path.join(hd, 'go.mod')).read().replace('/repo/ociregistry', vlib.REPO + '/ociregistry')
+    open(os.path.join(hd, 'go.mod'), 'w').write(gm)
+    out = os.path.join(ctx.work, 'vh-c17')
+    p = subprocess.run(['go', 'build', '-tags', 'verif', '-o', out, '.'], cwd=hd, env=dict(os.environ, **vlib.GOENV),
+                       capture_output=True, text=True)
+    if p.returncode != 0:
+        raise vlib.Machinery('harness build failed:\n' + p.stdout + p.stderr)
+    return out
 
 
 def split_cases(lines):
@@ -211,7 +233,7 @@ def run(ctx):
     open(cf, 'w').write('\n'.join(short) + '\n' + '\n'.join(rest) + '\n')
     # 2. the real code: the exported cases (the short plain strings, the bulk, with the light
     #    event set in the quick tier), then seeded-random and mutated strings
-    vh = vlib.build_harness(ctx)
+    vh = build_harness(ctx)
     trace = os.path.join(ctx.sub('traces'), 'ref.ndjson')
     st = run_ref(ctx, vh, trace, cases=cf, n=1500 if quick else 40000, seed=ctx.seed, level=2, lightmax=8)
     nstr, nev = st['strings'], st['events']
@@ -252,7 +274,7 @@ def run(ctx):
 
 
 def replay(ctx, path):
-    vh = vlib.build_harness(ctx)
+    vh = build_harness(ctx)
     out = os.path.join(ctx.sub('replay'), 'trace.ndjson')
     run_ref(ctx, vh, out, replay=path)
     before = len(ctx.violations)
